@@ -28,7 +28,8 @@
 (*   a slot with c = TRUE lies inside the condition of an `if`, where a    *)
 (*   structure literal cannot be written (its brace would open the branch) *)
 (*   type contexts: "top"; "inner" (target of & and of a view: no slice,   *)
-(*   no view); "elem" (array element: no slice, view or endless array)     *)
+(*   no view); "elem" (array element: no slice, view, endless array or     *)
+(*   array view []T -- docs/errors.md E350)                                *)
 (*   statement contexts: "seq"; "then" (no if: an else would bind to it,   *)
 (*   no label, no declaration, no `&x = ..`: the & would continue the      *)
 (*   condition); "else" (may be an if: else-if chain)                      *)
@@ -202,7 +203,8 @@ P_TySlice == /\ On("TySlice") /\ TyAt({"top"})
              /\ \E a \in Cand("slice", {[k |-> "slice"]}) : Step(a, <<TP("["), TP(":"), TP("]"), TY("elem")>>)
 P_TyEndless == /\ On("TyEndless") /\ TyAt({"top", "inner"})
                /\ \E a \in Cand("endless", {[k |-> "endless"]}) : Step(a, <<TP("["), TP(".."), TP("]"), TY("elem")>>)
-P_TyArraylike == /\ On("TyArraylike") /\ TyAt(AnyCtx)
+\* docs/errors.md E350: []T has no size known at compile time, so it cannot be an array element ([10][]u8, [][]i32)
+P_TyArraylike == /\ On("TyArraylike") /\ TyAt({"top", "inner"})
                  /\ \E a \in Cand("arraylike", {[k |-> "arraylike"]}) : Step(a, <<TP("["), TP("]"), TY("elem")>>)
 
 (***************************************************************************)
